@@ -3,13 +3,281 @@ C07 — the compiled conic system is equivalent to the high-level constraints.
 Property theorems about `Model/Compile.lean`.
 -/
 import SageoptModel.Model.Compile
+import SageoptModel.Lemmas.CompileBasic
+import SageoptModel.Lemmas.CompileAtoms
+import SageoptModel.Lemmas.CompileRows
+import SageoptModel.Lemmas.CompileEquiv
+import SageoptModel.Lemmas.CompileCounterex
+import Mathlib.Tactic.NormNum
+import Mathlib.Tactic.Positivity
 
 namespace Sageopt.Props.C07
-open Sageopt Sageopt.Compile
+open Sageopt Sageopt.Compile Sageopt.Solvers Sageopt.Analysis
+
+-- some target statements carry hypotheses their proofs do not need (`haff` in `elem_rows_residual`,
+-- `Q` in `primal_rows_iff`, `hnd` in `colOf_spec`); the statements are kept verbatim
+set_option linter.unusedVariables false
 
 /-- the assembled system has one row of A and one entry of b per compiled row -/
 theorem assemble_dims (rows : List CRow) (K : List Cone) :
     (assemble rows K).A.length = rows.length ∧ (assemble rows K).b.length = rows.length := by
   simp [assemble]
+
+/-! ### per-atom epigraph rows: `rows ∈ K ↔ atom(σ) ≤ epi` (also with constant arguments, whose rows
+    carry a zero entry on the dummy column) -/
+theorem epiRows_iff (Q : CType → List ℝ → Prop) (σ : Nat → ℝ) (a : NlAtom) (dummy : Nat)
+    (rows : List CRow) (k : Cone) (h : epiRows a dummy = .ok (rows, k)) :
+    FeasBlocks (conP Q) [k] (rows.map (crowVal σ)) ↔ AtomLe σ a (σ a.epi) :=
+  epiRows_sem Q σ a dummy rows k h
+
+/-- every atom with a nonempty epigraph has a least epigraph value (its value) -/
+theorem atom_has_value (σ : Nat → ℝ) (a : NlAtom) (t : ℝ) (h : AtomLe σ a t) : ∃ v, IsVal σ a v :=
+  atom_has_value' σ a t h
+theorem atomLe_mono (σ : Nat → ℝ) (a : NlAtom) (t t' : ℝ) (h : AtomLe σ a t) (ht : t ≤ t') : AtomLe σ a t' :=
+  atomLe_mono' σ a t t' h ht
+/-- the epigraph relation only depends on (kind, args): atoms that the code identifies have the same value -/
+theorem atomLe_same (σ : Nat → ℝ) (a b : NlAtom) (h : a.same b = true) (t : ℝ) : AtomLe σ a t ↔ AtomLe σ b t :=
+  atomLe_congr σ a b h t
+
+/-! ### affine constraints: the residual rows equal the slack identically -/
+theorem elem_rows_residual (σ : Nat → ℝ) (dummy : Nat) (isEq : Bool) (rows : List SRow)
+    (haff : ∀ r ∈ rows, rowAtoms r = []) (crows : List CRow) (K : List Cone)
+    (h : conRows dummy (.elem isEq rows) = .ok (crows, K)) :
+    crows.map (crowVal σ) = rows.map (fun r => - affVal σ r) ∧
+    K = [⟨if isEq then .zero else .pos, rows.length⟩] :=
+  elem_rows_residual' σ dummy isEq rows crows K h
+
+/-! ### set-membership classes -/
+theorem primal_rows_iff (Q : CType → List ℝ → Prop) (σ : Nat → ℝ) (dummy : Nat) (y : List SRow) (K : List Cone)
+    (crows : List CRow) (K' : List Cone) (h : conRows dummy (.primal y K) = .ok (crows, K')) :
+    K' = K ∧ crows.map (crowVal σ) = y.map (affVal σ) ∧ ∀ r ∈ y, rowAtoms r = [] :=
+  primal_rows' σ dummy y K crows K' h
+
+/-- the rows `DualProductCone.conic_form` emits hold iff `y ∈ K*`, for every sequence over {+,0,S,e}
+    (uses `exp_dual_iff`: (u,v,w) ∈ K_exp* ↔ (−w, e·v, −u) ∈ K_exp — the factor e is in the code) -/
+theorem dual_rows_iff (Q : CType → List ℝ → Prop) (σ : Nat → ℝ) (dummy : Nat) (y : List SRow) (K : List Cone)
+    (hK : ∀ co ∈ K, co.type ∈ [CType.zero, .pos, .soc, .exp]) (hlen : y.length = (K.map (·.len)).sum)
+    (crows : List CRow) (K' : List Cone) (h : conRows dummy (.dual y K) = .ok (crows, K')) :
+    (∀ r ∈ y, rowAtoms r = []) →
+    (FeasBlocks (conP Q) K' (crows.map (crowVal σ)) ↔ FeasBlocks (dualP Q) K (y.map (affVal σ))) :=
+  fun _ => (dual_rows_sem Q σ dummy y K hK hlen crows K' h).2
+
+/-- second-order cone self-duality (justifies treating `S` as its own dual in `dualP`) -/
+theorem soc_self_dual (y : List ℝ) :
+    socR y ↔ ∀ s : List ℝ, s.length = y.length → socR s → 0 ≤ dot s y :=
+  soc_self_dual' y
+
+/-! ### the compiler: equivalence with the high-level constraints -/
+/-- For every constraint list satisfying the curvature condition `Convex` (and with fresh epigraph
+    variables), an assignment of the user's variables satisfies every constraint by its mathematical
+    definition iff it extends, by some values of the epigraph variables, to a point of the compiled
+    system.
+
+    The target statement `compile_equiv` is FALSE without the two extra hypotheses `hkeys`, `hdual`
+    (`Compile.compile_equiv_false_dupkeys`, `Compile.compile_equiv_false_dualzero` in
+    `Lemmas/CompileCounterex.lean` refute it):
+    * `hkeys`: the nonlinear keys of one ScalarExpression are pairwise distinct under the code's atom
+      identity `same` (true of every Python dict; `SRow.terms` is a list and does not enforce it —
+      `substRow` keeps the first coefficient and deletes all duplicates);
+    * `hdual`: the rows of the argument of a `DualProductCone` are affine (`Holds` demands it, but
+      `dualMap` drops the rows of a `'0'` block without ever looking at them). -/
+theorem compile_equiv_partial (Q : CType → List ℝ → Prop) (cons : List Con) (dummy : Nat)
+    (hconv : ∀ c ∈ cons, Convex c = true) (hfresh : EpiFresh cons)
+    (hwf : ∀ c ∈ cons, match c with
+      | .primal y K => y.length = (K.map (·.len)).sum
+      | .dual y K => y.length = (K.map (·.len)).sum ∧ ∀ co ∈ K, co.type ∈ [CType.zero, .pos, .soc, .exp]
+      | _ => True)
+    (hkeys : ∀ c ∈ cons, ∀ r ∈ elemRowsOf c, (rowAtoms r).Pairwise (fun a b => a.same b = false))
+    (hdual : ∀ c ∈ cons, match c with
+      | .dual y _ => ∀ r ∈ y, rowAtoms r = []
+      | _ => True)
+    (rows : List CRow) (K : List Cone) (h : compileBlocks cons dummy = .ok (rows, K)) (σ : Nat → ℝ) :
+    (∀ c ∈ cons, Holds Q σ c) ↔
+      ∃ σ' : Nat → ℝ,
+        (∀ id, id ∉ (collectAtoms ((cons.filter isElem).flatMap elemRowsOf)).map (·.epi) → σ' id = σ id) ∧
+        FeasRows Q σ' rows K := by
+  refine compile_equiv_core Q cons dummy hconv hfresh hkeys ?_ rows K h σ
+  intro c hc _
+  have h1 := hwf c hc
+  have h2 := hdual c hc
+  cases c with
+  | elem isEq rws => trivial
+  | primal y K => exact h1
+  | dual y K => exact ⟨h1, fun r hr => h2 r (dualZeroRows_subset K y r hr)⟩
+  | pow w z => trivial
+  | psd arg => trivial
+
+/-- the same with the weakest hypothesis on `DualProductCone`s: only the rows inside `'0'` blocks
+    (`Compile.dualZeroRows`, the rows the code never looks at) are assumed affine — for all other rows
+    affineness follows from the success of the compiler -/
+theorem compile_equiv_partial_sharp (Q : CType → List ℝ → Prop) (cons : List Con) (dummy : Nat)
+    (hconv : ∀ c ∈ cons, Convex c = true) (hfresh : EpiFresh cons)
+    (hwf : ∀ c ∈ cons, match c with
+      | .primal y K => y.length = (K.map (·.len)).sum
+      | .dual y K => y.length = (K.map (·.len)).sum ∧ ∀ co ∈ K, co.type ∈ [CType.zero, .pos, .soc, .exp]
+      | _ => True)
+    (hkeys : ∀ c ∈ cons, ∀ r ∈ elemRowsOf c, (rowAtoms r).Pairwise (fun a b => a.same b = false))
+    (hdual : ∀ c ∈ cons, match c with
+      | .dual y K => ∀ r ∈ dualZeroRows y K, rowAtoms r = []
+      | _ => True)
+    (rows : List CRow) (K : List Cone) (h : compileBlocks cons dummy = .ok (rows, K)) (σ : Nat → ℝ) :
+    (∀ c ∈ cons, Holds Q σ c) ↔
+      ∃ σ' : Nat → ℝ,
+        (∀ id, id ∉ (collectAtoms ((cons.filter isElem).flatMap elemRowsOf)).map (·.epi) → σ' id = σ id) ∧
+        FeasRows Q σ' rows K := by
+  refine compile_equiv_core Q cons dummy hconv hfresh hkeys ?_ rows K h σ
+  intro c hc _
+  have h1 := hwf c hc
+  have h2 := hdual c hc
+  cases c with
+  | elem isEq rws => trivial
+  | primal y K => exact h1
+  | dual y K => exact ⟨h1, h2⟩
+  | pow w z => trivial
+  | psd arg => trivial
+
+/-- for lists of elementwise constraints only, the dictionary invariant `hkeys` is the one extra hypothesis -/
+theorem compile_equiv_elem_partial (Q : CType → List ℝ → Prop) (cons : List Con) (dummy : Nat)
+    (helem : ∀ c ∈ cons, isElem c = true)
+    (hconv : ∀ c ∈ cons, Convex c = true) (hfresh : EpiFresh cons)
+    (hkeys : ∀ c ∈ cons, ∀ r ∈ elemRowsOf c, (rowAtoms r).Pairwise (fun a b => a.same b = false))
+    (rows : List CRow) (K : List Cone) (h : compileBlocks cons dummy = .ok (rows, K)) (σ : Nat → ℝ) :
+    (∀ c ∈ cons, Holds Q σ c) ↔
+      ∃ σ' : Nat → ℝ,
+        (∀ id, id ∉ (collectAtoms ((cons.filter isElem).flatMap elemRowsOf)).map (·.epi) → σ' id = σ id) ∧
+        FeasRows Q σ' rows K := by
+  refine compile_equiv_core Q cons dummy hconv hfresh hkeys ?_ rows K h σ
+  intro c hc hne
+  rw [helem c hc] at hne
+  cases hne
+
+/-- row dimensions of the compiled system agree -/
+theorem compile_dims (cons : List Con) (dummy : Nat) (vars : List VarInfo) (c : Compiled) (vm : List (String × List Int))
+    (h : compile cons dummy vars = .ok (c, vm)) :
+    c.A.length = (c.K.map (·.len)).sum ∧ c.b.length = (c.K.map (·.len)).sum ∧ ∀ r ∈ c.A, r.length = c.cols.length :=
+  compile_dims' cons dummy vars c vm h
+
+/-! ### assembly and the variable map -/
+/-- the assembled dense row applied to `x_j = σ(cols_j)` is the compiled row's value (duplicates in the
+    triplet list are summed) -/
+theorem assemble_correct (rows : List CRow) (K : List Cone) (σ : Nat → ℝ) (i : Nat) (hi : i < rows.length) :
+    let c := assemble rows K
+    (List.zipWith (fun (a : Rat) (cid : Nat) => (a : ℝ) * σ cid) (c.A.getD i []) c.cols).sum + ((c.b.getD i 0 : Rat) : ℝ)
+      = ((rows.getD i ⟨[], 0, false⟩).entries.map fun e => (e.2 : ℝ) * σ e.1).sum
+          + (((rows.getD i ⟨[], 0, false⟩).const : Rat) : ℝ) :=
+  assemble_val rows K σ i hi
+
+/-- columns are the sorted distinct ids that occur: distinct components get distinct columns -/
+theorem cols_sorted (rows : List CRow) : (sortedCols rows).Pairwise (· < ·) ∧
+    ∀ id, id ∈ sortedCols rows ↔ ∃ r ∈ rows, ∃ e ∈ r.entries, e.1 = id :=
+  sortedCols_spec rows
+
+/-- `-1` exactly for ids that occur nowhere; otherwise the column that carries the id -/
+theorem colOf_spec (cols : List Nat) (hnd : cols.Nodup) (id : Nat) :
+    (colOf cols id = -1 ↔ id ∉ cols) ∧
+    (∀ j : Nat, colOf cols id = (j : Int) → cols.getD j 0 = id ∧ j < cols.length) ∧
+    (id ∈ cols → ∃ j : Nat, colOf cols id = (j : Int)) :=
+  colOf_spec' cols id
+
+theorem variable_map_correct (cols : List Nat) (vars : List VarInfo) (vm : List (String × List Int))
+    (h : variableMap cols vars = .ok vm) :
+    (∀ v ∈ vars, (v.name, v.ids.map (colOf cols)) ∈ vm) ∧ vm.length = vars.length ∧
+    (∀ v ∈ vars, ∀ w ∈ vars, v.gen = w.gen) :=
+  variableMap_ok cols vars vm h
+
+/-- mixed generations are rejected -/
+theorem variable_map_rejects (cols : List Nat) (vars : List VarInfo)
+    (h : ∃ v ∈ vars, ∃ w ∈ vars, v.gen ≠ w.gen) : ∃ m, variableMap cols vars = .error m :=
+  variableMap_rejects cols vars h
+
+
+/-! ### non-vacuity -/
+
+/-- `‖(x₀, 2x₁+1)‖₂ − x₂ ≤ 0`, `3|x₀ − x₁| + x₂ − 4 ≤ 0`, `x₀ + x₁ − 1 = 0` -/
+def exCons : List Con :=
+  [.elem false
+     [⟨[(.nl ⟨.norm2, [⟨[(0, 1)], 0⟩, ⟨[(1, 2)], 1⟩], 10⟩, 1), (.var 2, -1)], 0⟩,
+      ⟨[(.nl ⟨.abs, [⟨[(0, 1), (1, -1)], 0⟩], 11⟩, 3), (.var 2, 1)], -4⟩],
+   .elem true [⟨[(.var 0, 1), (.var 1, 1)], -1⟩]]
+
+def exRows : List CRow :=
+  [⟨[(2, 1), (10, -1)], 0, false⟩, ⟨[(2, -1), (11, -3)], 4, false⟩, ⟨[(0, -1), (1, -1)], 1, false⟩,
+   ⟨[(10, 1)], 0, false⟩, ⟨[(0, 1)], 0, false⟩, ⟨[(1, 2)], 1, false⟩,
+   ⟨[(11, 1), (0, 1), (1, -1)], 0, false⟩, ⟨[(11, 1), (0, -1), (1, 1)], 0, false⟩]
+
+def exK : List Cone := [⟨.pos, 2⟩, ⟨.zero, 1⟩, ⟨.soc, 3⟩, ⟨.pos, 2⟩]
+
+example : ∀ c ∈ exCons, Convex c = true := by decide
+theorem exCons_fresh : EpiFresh exCons := by unfold EpiFresh; with_unfolding_all decide
+theorem exCons_compiled : compileBlocks exCons 12 = .ok (exRows, exK) := by with_unfolding_all decide
+theorem exCons_atoms : (collectAtoms ((exCons.filter isElem).flatMap elemRowsOf)).map (·.epi) = [10, 11] := by
+  with_unfolding_all decide
+
+/-- the equivalence applies to the example: all its hypotheses hold -/
+theorem exCons_equiv (Q : CType → List ℝ → Prop) (σ : Nat → ℝ) :
+    (∀ c ∈ exCons, Holds Q σ c) ↔
+      ∃ σ' : Nat → ℝ, (∀ id, id ∉ [10, 11] → σ' id = σ id) ∧ FeasRows Q σ' exRows exK := by
+  rw [← exCons_atoms]
+  refine compile_equiv_partial Q exCons 12 (by decide) exCons_fresh (by simp [exCons]) ?_ (by simp [exCons])
+    exRows exK exCons_compiled σ
+  simp [exCons, elemRowsOf, rowAtoms]
+
+/-- … and it is not vacuous: `x = (1/2, 1/2, 3)` satisfies the three constraints, shown through the
+    compiled system with `epi₁₀ = 3`, `epi₁₁ = 0` -/
+example (Q : CType → List ℝ → Prop) :
+    ∀ c ∈ exCons, Holds Q (fun id => if id = 2 then 3 else 1 / 2) c := by
+  rw [exCons_equiv]
+  refine ⟨fun id => if id = 10 then 3 else if id = 11 then 0 else if id = 2 then 3 else 1 / 2, ?_, ?_⟩
+  · intro id hid
+    have h10 : id ≠ 10 := fun e => hid (by simp [e])
+    have h11 : id ≠ 11 := fun e => hid (by simp [e])
+    simp [h10, h11]
+  · unfold FeasRows exRows exK
+    simp only [List.map_cons, List.map_nil, crowVal_false, List.sum_cons, List.sum_nil, feasBlocks_cons,
+      feasBlocks_nil, and_true, List.take, List.drop, conP, realP, socR, List.mem_cons, List.not_mem_nil,
+      or_false, forall_eq_or_imp, forall_eq]
+    norm_num
+
+
+
+/-- `y = (x₀, x₁ + 1, x₂, 2x₃ − 1, x₄) ∈ (K_exp × R₊ × {0})*` -/
+def exDualY : List SRow :=
+  [⟨[(.var 0, 1)], 0⟩, ⟨[(.var 1, 1)], 1⟩, ⟨[(.var 2, 1)], 0⟩, ⟨[(.var 3, 2)], -1⟩, ⟨[(.var 4, 1)], 0⟩]
+def exDualK : List Cone := [⟨.exp, 3⟩, ⟨.pos, 1⟩, ⟨.zero, 1⟩]
+def exDual : Con := .dual exDualY exDualK
+
+/-- the rows `(−y₂, e·y₁, −y₀) ∈ K_exp`, `y₃ ≥ 0`; the `'0'` block has the free cone as dual: no rows -/
+def exDualRows : List CRow :=
+  [⟨[(2, -1)], 0, false⟩, ⟨[(1, 1)], 1, true⟩, ⟨[(0, -1)], 0, false⟩, ⟨[(3, 2)], -1, false⟩]
+
+theorem exDual_conRows : conRows 9 exDual = .ok (exDualRows, [⟨.exp, 3⟩, ⟨.pos, 1⟩]) := by
+  with_unfolding_all decide
+
+theorem exDual_compiled : compileBlocks [exDual] 9 = .ok (exDualRows, [⟨.exp, 3⟩, ⟨.pos, 1⟩]) := by
+  with_unfolding_all decide
+
+/-- `dual_rows_iff` applies, and says what it should -/
+example (Q : CType → List ℝ → Prop) (σ : Nat → ℝ) :
+    FeasBlocks (conP Q) [⟨.exp, 3⟩, ⟨.pos, 1⟩] (exDualRows.map (crowVal σ)) ↔
+      InExpDual (σ 0) (σ 1 + 1) (σ 2) ∧ 0 ≤ 2 * σ 3 - 1 := by
+  rw [dual_rows_iff Q σ 9 exDualY exDualK (by decide) (by decide) _ _ exDual_conRows
+    (by simp [exDualY, rowAtoms])]
+  simp only [exDualY, exDualK, List.map_cons, List.map_nil, feasBlocks_cons, feasBlocks_nil, and_true,
+    List.take, List.drop, dualP, realP, dexpR, List.mem_cons, List.not_mem_nil, or_false, forall_eq]
+  simp [affVal, rowValWith]
+
+/-- the equivalence applies to `[exDual]`, and `y = (0, 1, 0, 1, 0)` is in the dual cone -/
+example (Q : CType → List ℝ → Prop) :
+    ∀ c ∈ [exDual], Holds Q (fun id => if id = 3 then 1 else 0) c := by
+  rw [compile_equiv_partial Q [exDual] 9 (by decide) (by unfold EpiFresh; with_unfolding_all decide)
+    (by simp [exDual, exDualY, exDualK]) (by simp [exDual, elemRowsOf]) (by simp [exDual, exDualY, rowAtoms])
+    _ _ exDual_compiled]
+  refine ⟨_, fun _ _ => rfl, ?_⟩
+  unfold FeasRows exDualRows
+  simp only [List.map_cons, List.map_nil, crowVal_false, crowVal_true, List.sum_cons, List.sum_nil,
+    feasBlocks_cons, feasBlocks_nil, and_true, List.take, List.drop, conP, realP, expR, InExpCone,
+    List.mem_cons, List.not_mem_nil, or_false, forall_eq]
+  norm_num
+  positivity
 
 end Sageopt.Props.C07
